@@ -82,14 +82,17 @@ pub struct Fuel {
     pub elems: usize,
     /// maximal length of a single container
     pub max_len: usize,
+    /// allow container lengths above the length type's maximum (only meaningful for values that are
+    /// fed to an emplacer which is expected to refuse them)
+    pub overlong: bool,
 }
 
 impl Fuel {
     pub fn small() -> Self {
-        Fuel { elems: 48, max_len: 12 }
+        Fuel { elems: 48, max_len: 12, overlong: false }
     }
     pub fn big() -> Self {
-        Fuel { elems: 700, max_len: 300 }
+        Fuel { elems: 700, max_len: 300, overlong: false }
     }
 }
 
@@ -185,7 +188,9 @@ pub fn gen_value(ty: &Ty, t: &mut Tape, fuel: &mut Fuel) -> Value {
         }
         Ty::FlatVec(e, l) => {
             let mut n = gen_len(t, fuel);
-            n = n.min(l.max().min(1 << 20) as usize);
+            if !fuel.overlong {
+                n = n.min(l.max().min(1 << 20) as usize);
+            }
             Value::Vec((0..n).map(|_| gen_value(e, t, fuel)).collect())
         }
         Ty::FlatString(l) => {
@@ -193,7 +198,7 @@ pub fn gen_value(ty: &Ty, t: &mut Tape, fuel: &mut Fuel) -> Value {
             let mut s = String::new();
             for _ in 0..n {
                 let c = gen_char(t);
-                if (s.len() + c.len_utf8()) as u128 > l.max() {
+                if (s.len() + c.len_utf8()) as u128 > l.max() && !fuel.overlong {
                     break;
                 }
                 s.push(c);
